@@ -206,7 +206,7 @@ fn check_tamper(t: &Tamper, b: &Built, plain: &[u8], info: &mut Info) -> Verdict
 pub fn run(ctx: &mut Ctx) {
     ctx.rule("combos: (AE-1|AE-2) x (128|192|256) x inner method {stored,deflate,bzip2,zstd} x content lengths incl. 0,1,15,16,17,31,32,33, multi-block, ~100 KiB x passwords (empty, binary, long) built by an independent encryptor (own AES/SHA-1/HMAC/PBKDF2): right password -> exact bytes under varied caller buffers; none -> password-required; wrong -> rejected or read error; CRC field enforced for AE-1, ignored for AE-2. tamper_small: EVERY single-bit flip of salt, verifier, ciphertext and authentication code of entries with <=64 bytes of ciphertext (exhaustive over version x strength x method x 6 lengths): opening or reading must fail. tamper_large: random single-bit flips in 40-170 KiB entries. Non-trivial = non-empty content.");
     ctx.assume("known finding ae2-compressed-early-stream-end is excluded by signature: AE-2 + compressing inner method + more than 32 KiB of ciphertext + flip inside the ciphertext + read completes with altered data");
-    let n = ctx.q(3000, 40000);
+    let n = ctx.q(12000, 100000);
     ctx.explore::<Combo>(
         "combos",
         n,
